@@ -398,7 +398,72 @@ def growth_mode(out):
             if hybrid:
                 sim.step()
             del sim
+    names(res)
     json.dump(res, open(out, "w"))
+
+
+def murmur3_32(data, seed):
+    """MurmurHash3_x86_32 (public-domain reference algorithm), independent of the library"""
+    c1, c2 = 0xcc9e2d51, 0x1b873593
+    h = seed & 0xffffffff
+    n = len(data)
+    for i in range(0, n - n % 4, 4):
+        k = int.from_bytes(data[i:i + 4], "little")
+        k = (k * c1) & 0xffffffff
+        k = ((k << 15) | (k >> 17)) & 0xffffffff
+        k = (k * c2) & 0xffffffff
+        h ^= k
+        h = ((h << 13) | (h >> 19)) & 0xffffffff
+        h = (h * 5 + 0xe6546b64) & 0xffffffff
+    tail = data[n - n % 4:]
+    k = 0
+    if len(tail) >= 3:
+        k ^= tail[2] << 16
+    if len(tail) >= 2:
+        k ^= tail[1] << 8
+    if len(tail) >= 1:
+        k ^= tail[0]
+        k = (k * c1) & 0xffffffff
+        k = ((k << 15) | (k >> 17)) & 0xffffffff
+        k = (k * c2) & 0xffffffff
+        h ^= k
+    h ^= n
+    h ^= h >> 16
+    h = (h * 0x85ebca6b) & 0xffffffff
+    h ^= h >> 13
+    h = (h * 0xc2b2ae35) & 0xffffffff
+    h ^= h >> 16
+    return h
+
+
+def names(res):
+    """look-up and removal by name: string keys of every length class (0..3 mod 4), names that differ by a transposition of their
+    last characters; the key of a name is MurmurHash3 (seed 1983) of its bytes, and every name finds exactly its own particle"""
+    import random
+    rng = random.Random(5)
+    pool = ["a", "ab", "p12", "p21", "moon_12", "moon_21", "earth", "saturn", "planet 9", "xyz", "zyx", "yxz", "abcdefg", "abcdegf", "abcdefghijk", "abcdefghikj"]
+    for ln in range(1, 14):
+        pool.append("".join(rng.choice("abcXYZ019_ ") for _ in range(ln)))
+    pool = sorted(set(pool))
+    for nm in pool:
+        res["ops"] += 1
+        got = rebound.hash(nm).value
+        want = murmur3_32(nm.encode(), 1983)
+        if got != want:
+            res["problems"].append({"hybrid": False, "boundary": 0, "name": nm, "hash": got, "murmur3": want})
+    sim = rebound.Simulation()
+    for i, nm in enumerate(pool):
+        sim.add(m=float(i + 1), x=float(i), hash=nm)
+    for i, nm in enumerate(pool):
+        res["ops"] += 1
+        if sim.particles[nm].m != float(i + 1):
+            res["problems"].append({"hybrid": False, "boundary": 0, "name": nm, "lookup_returns_mass": sim.particles[nm].m, "want": float(i + 1)})
+    for i, nm in enumerate(pool):
+        if i % 3 == 0:
+            sim.remove(hash=nm)
+    left = [float(i + 1) for i, nm in enumerate(pool) if i % 3]
+    if [p.m for p in sim.particles] != left:
+        res["problems"].append({"hybrid": False, "boundary": 0, "after_remove_by_name": [p.m for p in sim.particles][:10], "want": left[:10]})
 
 
 if __name__ == "__main__":
